@@ -1,9 +1,9 @@
 package main
 
 import (
-	"runtime/pprof"
 	"fmt"
 	"os"
+	"runtime/pprof"
 	"sort"
 	"strings"
 
@@ -28,6 +28,8 @@ func main() {
 		rc := cmdVerify(os.Args[2:])
 		pprof.StopCPUProfile()
 		os.Exit(rc)
+	case "mutants":
+		os.Exit(cmdMutants(os.Args[2:]))
 	case "census":
 		p, err := LoadProgram("/repo")
 		if err != nil {
